@@ -15,7 +15,7 @@ import ast
 
 from .. import astutil as A
 from ..cfg import CFG
-from ..dispatch import body_raises, find_chains, first_match
+from ..dispatch import body_raises, find_chains, first_match, unknown_subclasses_rejected
 from ..guards import MISSING, Interp, Unsupported
 from ..loader import AnalysisError
 from .c06 import _norm
@@ -80,6 +80,9 @@ def dispatch_rules(ctx, rep, rule: str) -> None:
         rep.ob(rule, f"dispatch:{ci.name}", ok, fi.loc(arm.node), detail, sample=True)
     last = chain[-1]
     rep.ob(rule, "dispatch:fall-through", last.kind == "else" and body_raises(repo, m, last.body) == "NotImplementedError", fi.loc(last.node), "unknown root-inverse configs raise NotImplementedError")
+    type_arms = [a for a in chain if a.kind in ("type_is", "isinstance", "else")]
+    bad = unknown_subclasses_rejected(repo, m, type_arms, repo.concrete_subclasses(base))
+    rep.ob(rule, "dispatch:unknown-subclasses-rejected", not bad, fi.loc(), "a root-inverse config of an unknown subclass raises NotImplementedError" + (f": {bad[:3]}" if bad else ""))
     rep.floor(rule, "RootInvConfig subclasses dispatched", n, 3)
     # fast paths
     cfg = CFG(fi.node)
